@@ -203,7 +203,7 @@ func (runInfo *runInfoStruct) runVarStmt(stmt *ast.VarStmt) {
 		if runInfo.err != nil {
 			return
 		}
-		if env, ok := runInfo.rv.Interface().(*env.Env); ok {
+		if env, ok := runInfo.rv.Interface().(*env.Env); ok && env != nil {
 			rvs[i] = reflect.ValueOf(env.DeepCopy())
 		} else {
 			rvs[i] = detachValue(runInfo.rv)
@@ -251,7 +251,7 @@ func (runInfo *runInfoStruct) runLetsStmt(stmt *ast.LetsStmt) {
 		if runInfo.err != nil {
 			return
 		}
-		if env, ok := runInfo.rv.Interface().(*env.Env); ok {
+		if env, ok := runInfo.rv.Interface().(*env.Env); ok && env != nil {
 			rvs[i] = reflect.ValueOf(env.DeepCopy())
 		} else {
 			// all right side values are taken before the first store: a, b = b, a
